@@ -22,7 +22,7 @@ fn default_opt() -> Opt {
     Opt { opaque: true, wildcard: false, from_impls: false, no_std: false, custom: vec![], annotations: vec![DEFAULT_ANN.into()] }
 }
 
-const FIXED: [(&str, &str); 42] = [
+const FIXED: [(&str, &str); 43] = [
     ("recursion-direct", "Rec ::= SEQUENCE { next Rec OPTIONAL, v INTEGER }"),
     ("recursion-choice", "Tree ::= CHOICE { leaf INTEGER, node SEQUENCE { l Tree, r Tree } }"),
     ("recursion-mutual", "Ra ::= SEQUENCE { b Rb OPTIONAL }\nRb ::= SEQUENCE { a Ra, n NULL }"),
@@ -67,6 +67,8 @@ const FIXED: [(&str, &str); 42] = [
     ("choice-values-nested-and-aliased", "In ::= CHOICE { n [0] INTEGER, s [1] UTF8String, b [2] BOOLEAN, k [3] INTEGER (0..7), o [4] OCTET STRING }\nOuter ::= CHOICE { in [0] In, z [1] NULL }\nTagged ::= In\no1 Outer ::= in : n : 5\no2 Outer ::= in : s : \"x\"\no3 Outer ::= in : b : TRUE\no4 Outer ::= in : k : 3\no5 Outer ::= z : NULL\no6 Outer ::= in : o : '0A'H\nt1 Tagged ::= n : 7\nt2 Tagged ::= s : \"y\"\nt3 Tagged ::= k : 2\nt4 Tagged ::= b : FALSE"),
     // the four tag classes with one number side by side (rasn checks uniqueness at compile time)
     ("same-number-in-every-tag-class", "Tc ::= CHOICE { u [UNIVERSAL 30] INTEGER, a [APPLICATION 30] INTEGER, c [30] INTEGER, p [PRIVATE 30] INTEGER }\nTs ::= SET { a [APPLICATION 7] BOOLEAN, p [PRIVATE 7] BOOLEAN, c [7] BOOLEAN }\nTo ::= SEQUENCE { a [APPLICATION 3] INTEGER OPTIONAL, p [PRIVATE 3] INTEGER OPTIONAL, c [3] INTEGER OPTIONAL, last BOOLEAN }"),
+    // SEQUENCE values whose members are typed by reference to a SEQUENCE, directly and through an alias, as value and as DEFAULT
+    ("struct-values-of-referenced-structs", "Inn ::= SEQUENCE { p INTEGER, q BOOLEAN }\nAli ::= Inn\nOut ::= SEQUENCE { z Inn, k BOOLEAN }\nHol ::= SEQUENCE { f [0] Ali DEFAULT { p 1, q TRUE }, g [1] Inn DEFAULT { p 2, q FALSE } }\nvo Out ::= { z { p 2, q TRUE }, k TRUE }\nva Ali ::= { p 3, q FALSE }\nvi Inn ::= { p 4, q FALSE }"),
     ("nested-depth-4", "Dp ::= SEQUENCE { l1 SEQUENCE { l2 CHOICE { l3 SEQUENCE OF SEQUENCE { l4 ENUMERATED { a, b }, k SET { m INTEGER } } } } }"),
     ("set-and-set-of", "St ::= SET { a [0] INTEGER, b [1] BOOLEAN OPTIONAL, ... , c [2] NULL }\nSo ::= SET (SIZE (1..4)) OF St"),
     ("extension-groups", "Eg ::= SEQUENCE { a INTEGER, ..., [[ 2: b BOOLEAN, c NULL OPTIONAL ]], d UTF8String OPTIONAL }"),
